@@ -42,6 +42,7 @@ func (t *T0x0704) Parse(jtMsg *jt808.JTMessage) error {
 	t.Num = binary.BigEndian.Uint16(body[:2])
 	t.LocationType = body[2]
 	start := 3
+	t.Items = nil // 复用同一个对象解析时 不能保留上一次的列表
 	for i := 0; i < int(t.Num); i++ {
 		var item T0x0704LocationItem
 		if start+2 > len(body) {
